@@ -360,7 +360,7 @@ def render(facts) -> str:
         out.append(f"def opt{cap}Flags : List (String × String) := ["
                    + ", ".join(f"({_s(fl)}, {_s(d)})" for d, fls, _ in m["declared"] for fl in fls) + "]")
         out.append(f"def opt{cap}StoreTrue : List String := {_sl([d for d, _, a in m['declared'] if a == 'store_true'])}")
-        out.append(f"def opt{cap}Reads : List String := {_sl(m['reads'])}")
+        out.append(f"def opt{cap}Reads : List String := {_sl(sorted(m['reads']))}")
         out.append(f"def opt{cap}Wiring : List (String × List String) := ["
                    + ", ".join(f"({_s(f)}, {_sl(ks)})" for f, ks, _ in m["wiring"]) + "]")
         out.append(f"def opt{cap}WiringKind : List (String × String) := ["
